@@ -55,6 +55,12 @@ def do_replay(prop, path):
     elif rp.get("kind") == "is_unique":
         from vf.e1.flatten_jobs import replay_is_unique
         viol, txt = replay_is_unique(rp)
+    elif rp.get("kind") == "redo_connections_bus":
+        from vf.e1.flatten_jobs import replay_redo_bus
+        viol, txt = replay_redo_bus(rp)
+    elif rp.get("kind") == "uniquify":
+        from vf.e1.flatten_jobs import replay_uniquify
+        viol, txt = replay_uniquify(rp)
     elif rp.get("kind") == "make_unique":
         from vf.e1.flatten_jobs import replay_make_unique
         viol, txt = replay_make_unique(rp)
